@@ -1,6 +1,7 @@
 mod abs;
 mod cast;
 mod fam_c08;
+mod fam_c09;
 mod fam_sys;
 mod scen;
 mod fam_c13;
@@ -21,6 +22,7 @@ fn arg(args: &[String], key: &str) -> Option<String> {
 pub struct Ctx {
     pub out: out::Out,
     world: Option<std::rc::Rc<world::World>>,
+    sregs: fam_c09::SizeRegs,
 }
 impl Ctx {
     /// the fixture pool, loaded (or generated) on first use
@@ -41,6 +43,11 @@ pub fn eval(case: &Value, ctx: &mut Ctx) -> Value {
         "ivl_merge" | "ivl_override" | "ivl_valid" | "ivl_fold" | "ivl_requested" | "ivl_prover" | "ivl_check_legacy" => {
             let w = ctx.world();
             fam_c08::eval(case, &w)
+        }
+        "sl_run" => {
+            let w = ctx.world();
+            let Ctx { out, sregs, .. } = ctx;
+            fam_c09::eval(case, &w, sregs, out)
         }
         "re" | "id" | "schema_valid" | "credreq_valid" => fam_c20::eval(case),
         _ => json!({"unknown_op": op}),
@@ -67,7 +74,7 @@ fn main() {
     let out_path = arg(&args, "--out").unwrap_or_else(|| "/dev/null".into());
     std::panic::set_hook(Box::new(|_| {}));
     let mut rng = rng::Rng::new(seed);
-    let mut ctx = Ctx { out: out::Out::create(&out_path), world: None };
+    let mut ctx = Ctx { out: out::Out::create(&out_path), world: None, sregs: fam_c09::SizeRegs::new() };
     let cases: Vec<Value> = match fam.as_str() {
         // re-evaluate the cases of a file (replay files, corpus files): one JSON case per line
         "replay" => {
@@ -87,6 +94,7 @@ fn main() {
                 .collect()
         }
         "c08" => fam_c08::gen(&mut rng, thorough, &mut ctx.out),
+        "c09" | "c10" => fam_c09::gen(&mut rng, thorough, &fam, &mut ctx.out),
         "c13" => fam_c13::gen(&mut rng, thorough, &mut ctx.out),
         "c16" => fam_c16::gen(&mut rng, thorough, &mut ctx.out),
         "c20" => fam_c20::gen(&mut rng, thorough, &mut ctx.out),
